@@ -258,6 +258,15 @@ def rowNumbers : Nat → List Node → List Nat
     let n := ((r.attr? "r".toList).bind natOf).getD (prev + 1)
     n :: rowNumbers n rest
 
+/-- the positions of the cells of one `<row>` whose number is `rn`, as (column, row) pairs: exactly
+    what `decodeSheet` below computes per row (`fillRefs rn 0` over the decoded cells) -/
+def specRowPositions (sst : List Text) (rn : Nat) (row : Node) : List (Nat × Nat) :=
+  (fillRefs rn 0 (((row.kids "c").map (decodeCell sst)).map (·.1))).map fun c => (colOf c.ref, rowOf c.ref)
+
+/-- the positions of a `<sheetData>`: per row its number (`rowNumbers`) and the positions of its cells -/
+def specPositions (sst : List Text) (prev : Nat) (rows : List Node) : List (Nat × List (Nat × Nat)) :=
+  (rows.zip (rowNumbers prev rows)).map fun p => (p.2, specRowPositions sst p.2 p.1)
+
 structure SheetBody where
   cells : List CellV := []
   merges : List Text := []
